@@ -46,7 +46,8 @@ m = {
                  "kind_free_text": "TLA+ specifications checked with TLC 1.8 (BFS, simulation, trace validation) driven by /verif/check.py"}],
     "checks": checks,
     "notes": "One driver (check.py), one module per property in harness/props, one TLA+ module family in spec/. "
-             "known_findings.json lists genuine defects recorded rather than repaired and the 'fixed:' entries.",
+             "known_findings.json lists genuine defects recorded rather than repaired and the 'fixed:' entries. "
+             "`/venv/bin/python check.py selftest` demonstrates the binding (tampered recordings are rejected).",
     "not_applicable": [{"property_id": p, "reason": r} for p, r in sorted(registry.NOT_YET.items())],
 }
 with open(os.path.join(HERE, "MANIFEST.json"), "w") as f:
